@@ -728,6 +728,11 @@ class BandStructure:
             )
             if dist_from_Gamma < DynamicalMatrixNAC.Q_DIRECTION_TOLERANCE:
                 q_direction = path[0] - path[-1]
+                if (
+                    np.linalg.norm(rec_lat @ q_direction)
+                    < DynamicalMatrixNAC.Q_DIRECTION_TOLERANCE
+                ):
+                    q_direction = None
 
         for i, q in enumerate(path):
             self._shift_point(q)
